@@ -30,6 +30,9 @@ func c20Op(kind string, seed uint64) string {
 		switch {
 		case len(kind) > 5 && kind[:5] == "read-":
 			d := genDoc(r, kind[5:], r.P(1, 4))
+			if d.Format == "stl" && r.P(1, 4) && len(d.Data) >= 1024 {
+				copy(d.Data[3:11], fw.Pick(r, []string{"STL24.01", "STL50.01", "STL60.01"})) // an unknown disk format code
+			}
 			s, err := d.Read(bytes.NewReader(d.Data))
 			if err != nil {
 				out = "err:" + err.Error()
